@@ -51,16 +51,9 @@ impl QBNumberCast<i32> for f32 {
 
 impl QBNumberCast<i64> for f32 {
     fn try_cast(&self) -> Result<i64, LintError> {
-        if self.is_finite() {
-            let r = self.round();
-            if r >= (MIN_LONG as Self) && r <= (MAX_LONG as Self) {
-                Ok(r as i64)
-            } else {
-                Err(LintError::Overflow)
-            }
-        } else {
-            Err(LintError::NotFiniteNumber)
-        }
+        // MAX_LONG is not representable as f32 (it rounds up to 2147483648),
+        // so the range is checked in f64, which holds every f32 exactly
+        (*self as f64).try_cast()
     }
 }
 
